@@ -753,3 +753,60 @@ TWINS["C06"] = [
     TW("reachable-skip-le",
        (MDPB, "                    if prob == 0:\n                        continue", "                    if prob <= 0:\n                        continue")),
 ]
+
+# ----------------------------------------------------------------------------------- C07
+PO = C + "pomdp/pomdp.py"
+TPO = C + "pomdp/tabularpomdp.py"
+BM = C + "pomdp/beliefmdp.py"
+MUTANTS["C07"] = [
+    M("revert-F21-obs-matrix-zero-prob", ["ZERO-1"],
+      (TPO, "                    if p == 0.:\n                        continue\n                    obs[ai, nsi, ooi[o]] = p", "                    obs[ai, nsi, ooi[o]] = p")),
+    M("filter-assign-instead-of-accumulate", ["ACC-1"],
+      (PO, "ns_dist[ns] += o_prob*s_prob*ns_prob", "ns_dist[ns] = o_prob*s_prob*ns_prob")),
+    M("filter-observation-on-previous-state", ["CALL-1", "ARG"],
+      (PO, "o_prob = self.observation_dist(a, ns).prob(o)", "o_prob = self.observation_dist(a, s).prob(o)")),
+    M("filter-drops-transition-prob", ["ACC-1"],
+      (PO, "ns_dist[ns] += o_prob*s_prob*ns_prob", "ns_dist[ns] += o_prob*s_prob")),
+    M("filter-keyed-by-source", ["ACC-1"],
+      (PO, "ns_dist[ns] += o_prob*s_prob*ns_prob", "ns_dist[s] += o_prob*s_prob*ns_prob")),
+    M("filter-not-normalised", ["NORM-1"],
+      (PO, "return DictDistribution({ns: p/tot for ns, p in ns_dist.items() if p > 0.0})", "return DictDistribution({ns: p for ns, p in ns_dist.items() if p > 0.0})")),
+    M("filter-zero-test-dropped", ["NORM-1"],
+      (PO, "        if tot == 0.0:\n            return DictDistribution({})\n", "")),
+    M("predictive-observation-on-previous-state", ["CALL-1"],
+      (PO, "                for o, o_prob in self.observation_dist(a, ns).items():", "                for o, o_prob in self.observation_dist(a, s).items():")),
+    M("predictive-drops-belief-weight", ["ACC-1"],
+      (PO, "o_dist[o] += s_prob*ns_prob*o_prob", "o_dist[o] += ns_prob*o_prob")),
+    M("vec-filter-transposed", ["TEN-2", "TEN-1"],
+      (TPO, "np.einsum('s,sn,n->n', b, self.transition_matrix[:, ai, :], self.observation_matrix[ai, :, oi])", "np.einsum('n,sn,n->s', b, self.transition_matrix[:, ai, :], self.observation_matrix[ai, :, oi])")),
+    M("vec-filter-obs-index-swapped", ["IDX-1"],
+      (TPO, "self.observation_matrix[ai, :, oi])\n        if dist.sum()", "self.observation_matrix[oi, :, ai])\n        if dist.sum()")),
+    M("vec-predictive-transposed", ["TEN-1", "TEN-2"],
+      (TPO, "np.einsum('s,sn,no->o', b, self.transition_matrix[:, ai, :], self.observation_matrix[ai])", "np.einsum('s,sn,on->o', b, self.transition_matrix[:, ai, :], self.observation_matrix[ai])")),
+    M("obs-matrix-axes", ["TEN-4"],
+      (TPO, "obs[ai, nsi, ooi[o]] = p", "obs[nsi, ai, ooi[o]] = p")),
+    M("obs-matrix-conditioned-wrong", ["TEN-4", "ARG"],
+      (TPO, "for o, p in self._cached_observation_dist(a, ns).items():", "for o, p in self._cached_observation_dist(ns, a).items():")),
+    M("bmdp-weights-overwrite", ["BMDP-2"],
+      (BM, "                nb_dist[nb] += o_prob", "                nb_dist[nb] = o_prob")),
+    M("bmdp-estimator-wrong-action", ["BMDP-2"],
+      (BM, "nb = self.pomdp.state_estimator(b, a, o)", "nb = self.pomdp.state_estimator(b, o, a)")),
+    M("bmdp-reward-unweighted", ["BMDP-3"],
+      (BM, "            r += sa_reward*s_prob", "            r += sa_reward")),
+    M("bmdp-reward-not-reset", ["BMDP-3"],
+      (BM, "        for s, s_prob in b.items():\n            sa_reward = 0\n", "        sa_reward = 0\n        for s, s_prob in b.items():\n")),
+    M("bmdp-absorbing-any", ["BMDP-4"],
+      (BM, "            if (prob > 0.0) and not self.pomdp.is_absorbing(state):\n                return False\n        return True", "            if (prob > 0.0) and self.pomdp.is_absorbing(state):\n                return True\n        return False")),
+    M("tracker-wrong-args", ["TRK-1"],
+      (C + "pomdp/policy.py", "ns_dist = self.pomdp.state_estimator(s_dist, a, o)", "ns_dist = self.pomdp.state_estimator(s_dist, o, a)")),
+]
+TWINS["C07"] = [
+    TW("filter-factor-order",
+       (PO, "ns_dist[ns] += o_prob*s_prob*ns_prob", "ns_dist[ns] += ns_prob*(s_prob*o_prob)")),
+    TW("predictive-rename",
+       (PO, "o_dist[o] += s_prob*ns_prob*o_prob", "o_dist[o] += o_prob*ns_prob*s_prob")),
+    TW("vec-letters-renamed",
+       (TPO, "np.einsum('s,sn,n->n', b,", "np.einsum('i,ij,j->j', b,")),
+    TW("obs-guard-positive",
+       (TPO, "                    if p == 0.:\n                        continue\n                    obs[ai, nsi, ooi[o]] = p", "                    if p > 0:\n                        obs[ai, nsi, ooi[o]] = p")),
+]
